@@ -69,10 +69,36 @@ func (e *Engine) VerifyFn(fc *FnContract) {
 	st := NewState()
 	V := &VerifyCtx{Fn: fn, FC: fc, Tags: fc.B.Tags, nOblig: map[string]int{}}
 	fr := e.newFrame(fn, nil, V)
+	if fc.ClosureOf != nil {
+		// captured variables: cells with arbitrary contents; their entry values lead the
+		// parameter list of the clause functions
+		vals := map[string]Value{}
+		for _, fv := range fn.FreeVars {
+			pt, ok := fv.Type().(*types.Pointer)
+			if !ok {
+				e.fail("free variable %s of %s is not captured by reference", fv.Name(), fc.Key)
+			}
+			e.nextCell++
+			cell := &Cell{ID: e.nextCell, Name: "free$" + fv.Name(), T: pt.Elem()}
+			v := e.symbolicInput(st, pt.Elem(), "in$"+fv.Name())
+			st.Cells[cell] = v
+			vals[fv.Name()] = v
+			fr.Free = append(fr.Free, &PtrV{Kind: PCell, T: pt.Elem(), Cell: cell})
+		}
+		for _, nm := range fc.Captured {
+			v, ok := vals[nm]
+			if !ok {
+				e.fail("captured variable %s of %s not among the closure's free variables", nm, fc.Key)
+			}
+			fr.Params = append(fr.Params, v)
+		}
+	}
+	nCapt := len(fr.Params)
+	fr.POff = nCapt
 	for i, p := range fn.Params {
 		nm := p.Name()
-		if i < len(fc.PNames) {
-			nm = fc.PNames[i]
+		if nCapt+i < len(fc.PNames) {
+			nm = fc.PNames[nCapt+i]
 		}
 		fr.Params = append(fr.Params, e.symbolicInput(st, p.Type(), "in$"+nm))
 	}
